@@ -279,6 +279,36 @@ def table_groups(r, tier):
     return G
 
 
+FAILING_CALLEE = 0xC0DE
+# ORIGIN PUSH1 8 JUMPI ; PUSH1 0 DUP1 REVERT ; JUMPDEST <fail>
+FAILING_CALLEE_CODE = {"revert/revert": bytes.fromhex("32600857600080fd5b600080fd"),
+                       "revert/invalid": bytes.fromhex("32600857600080fd5bfe")}
+
+
+def failed_call_programs(r, tier):
+    """a sub-call failing on two forked callee paths, then read-modify-write stores and loads in the
+    caller: per path every load must return the last store of ITS path, and the paths must not share
+    storage objects"""
+    P = []
+    m = ("S512", ("K", 7), ("K", 1))
+    ms = ("S512", ("V", 0), ("K", 1))
+    arr = ("Add", [("S256", ("K", 2)), ("V", 1)])
+    shapes = [
+        [("sinc", ("K", 0)), ("sinc", m), ("sload", m), ("sload", ("K", 0))],
+        [("sstore", ms, ("K", 5)), ("sinc", ms), ("sinc", ("K", 3)), ("sload", ms), ("sload", ("K", 3)), ("sload", m)],
+        [("tinc", ("K", 0)), ("tinc", m), ("sinc", arr), ("tload", m), ("tload", ("K", 0)), ("sload", arr)],
+    ]
+    n = 0
+    for layout in ("solidity", "generic"):
+        for ops in shapes:
+            kind = ["revert/revert", "revert/invalid"][n % 2]
+            call_op = ["CALL", "STATICCALL", "DELEGATECALL", "CALLCODE"][n % 4] if tier != "quick" or n % 3 else "CALL"
+            n += 1
+            P.append({"ops": ops, "nargs": 3, "layout": layout, "tags": ["failed-subcall"], "name": f"failed-call-{kind}",
+                      "failed_call": kind, "call_op": call_op, "origins": [0xC0FFEE, 0], "envs": [[7, 0, 0], [7, 0, 0], [1, 2, 3], [1, 2, 3]], "nenv": 2})
+    return P
+
+
 def gen_group(r, tier, p_unreg=0.06, special=None):
     g = L.LayoutGen(r, nvars=3)
     layout = g.gen_layout()
@@ -759,8 +789,18 @@ def l2_worker(task):
 
     r = random.Random(seed)
     items, nload = L.program(prog["ops"], prog["nargs"])
+    accounts = {}
+    if prog.get("failed_call"):
+        # a sub-call whose callee forks on ORIGIN and fails on BOTH sides (revert / invalid), before the
+        # caller's stores and loads: the caller resumes once per failed callee path, every continuation
+        # from the pre-call snapshot of the network state
+        accounts[FAILING_CALLEE] = {"code": FAILING_CALLEE_CODE[prog["failed_call"]]}
+        items = [("push", 0)] * 5 + [("pushn", 20, FAILING_CALLEE), ("push", 0xFFFF), prog.get("call_op", "CALL"), "POP"] + items
+        if prog.get("call_op", "CALL") in ("STATICCALL", "DELEGATECALL"):
+            items = items[1:]
     code = asm.assemble(items)
-    scn = {"profile": "c08", "accounts": {scenarios.THIS: {"code": code}}, "this": scenarios.THIS,
+    accounts[scenarios.THIS] = {"code": code}
+    scn = {"profile": "c08", "accounts": accounts, "this": scenarios.THIS,
            "calldata": [("c", b"\x12\x34\x56\x78")] + [("s", f"arg{i}", 32) for i in range(prog["nargs"])],
            "static": False, "options": {"storage_layout": prog["layout"]}}
     paths, flags = engine.run_scenario(scn)
@@ -769,9 +809,16 @@ def l2_worker(task):
         dom = [0, 1, 2, 3] if i < 4 else [0, 1, 2, 3, 255, 256, L.W - 1, r.getrandbits(256)]
         envs.append([r.choice(dom) for _ in range(prog["nargs"])])
     res = {"kinds": [p.kind for p in paths], "crashed": flags["crashed"], "fails": [], "evaluated": 0, "uncovered": 0,
-           "errors": 0, "code": code.hex(), "nload": nload}
-    for env in envs:
-        inp = {"caller": 0xC0FFEE, "origin": 0xC0FFEE, "value": 0, "args": {f"arg{i}": v for i, v in enumerate(env)}, "balances": {}}
+           "errors": 0, "code": code.hex(), "nload": nload, "shared": []}
+    if prog.get("failed_call"):
+        from harness import c09_lib
+
+        # storage objects must never be shared between sibling paths (SSTORE/TSTORE mutate them in place)
+        res["shared"] = c09_lib.shared_objects(paths)[:3]
+        res["npaths_ok"] = sum(1 for p in paths if p.kind == "ok")
+    origins = prog.get("origins", [0xC0FFEE])
+    for ei, env in enumerate(envs):
+        inp = {"caller": 0xC0FFEE, "origin": origins[ei % len(origins)], "value": 0, "args": {f"arg{i}": v for i, v in enumerate(env)}, "balances": {}}
         expect = L.ref_program(prog["ops"], env)
         holders = 0
         for p in paths:
@@ -805,6 +852,7 @@ def l2_worker(task):
                                          f"{hex(default)} at every index without an emptiness axiom in the path (a model of the path condition)"})
         if not holders and not flags["crashed"] and not any(k.startswith("stuck") for k in res["kinds"]):
             res["uncovered"] += 1
+            res.setdefault("uncovered_inputs", []).append({"env": env, "origin": inp["origin"]})
     return res
 
 
@@ -824,7 +872,7 @@ def run_l2(rep, tier, r):
     from harness import pool
 
     n = 240 if tier == "quick" else 3000
-    progs = corpus_programs() + table_programs(r, tier) + [gen_program(r, tier) for _ in range(n)]
+    progs = corpus_programs() + table_programs(r, tier) + failed_call_programs(r, tier) + [gen_program(r, tier) for _ in range(n)]
     tasks = [(r.getrandbits(32), p) for p in progs]
     bs = 10
     batches = [tasks[i:i + bs] for i in range(0, len(tasks), bs)]
@@ -851,6 +899,17 @@ def run_l2(rep, tier, r):
         rep.case({"l2": {"ops": prog["ops"], "layout": prog["layout"]}}, nontrivial=val["evaluated"] > 0 and any(o[0] in ("sload", "tload") for o in prog["ops"][:-1]))
         if val["uncovered"]:
             rep.count("l2_uncovered_valuations", prog["layout"], val["uncovered"])
+        if prog.get("failed_call"):
+            rep.count("l2_failed_call_paths", val.get("npaths_ok", 0))
+            if val.get("npaths_ok", 0) < 2:
+                rep.fail("broken-tie", f"L2 sub-call leg: the failing callee was expected to give >= 2 caller continuations, got path kinds {val['kinds']} for {prog['ops']}", case={"l2": prog})
+            if val["uncovered"]:
+                u = val["uncovered_inputs"][0]
+                rep.fail("failing-input", f"after a sub-call that failed on >= 2 paths, NO reported path holds / can be evaluated for args {u['env']} origin={hex(u['origin'])} (layout={prog['layout']}, {prog.get('call_op', 'CALL')}): the loads of the path covering it do not return the last store of that path (terms over storage arrays defined only in a sibling path); program {prog['ops']}; path kinds {val['kinds']}",
+                         case={"l2": prog, "env": u["env"], "origin": u["origin"], "code": val["code"]}, sig={"feature": "failed-subcall-uncovered", "layout": prog["layout"]})
+            for what in val["shared"][:1]:
+                rep.fail("broken-tie", f"after a sub-call that failed on >= 2 paths the reported paths share a storage object (a store in one path is visible to its sibling; layout={prog['layout']}, {prog.get('call_op', 'CALL')}): {what}; program {prog['ops']}",
+                         case={"l2": prog, "code": val["code"]})
         if val["fails"]:
             f = val["fails"][0]
             feats = program_features(prog, f["env"])
